@@ -6,7 +6,7 @@
    nothing when it is blocked on the lock or has returned).  All theorems are for EVERY schedule. *)
 From Coq Require Import ZArith List Lia Bool Arith Permutation.
 From PR Require Import Base.Slice Model.Partition Model.Sched Model.SchedGen Model.C15_run Gen.GenC15
-     Proofs.C15_inv Proofs.C15_term Proofs.C15_array Proofs.C15_hist Proofs.C15_gen Proofs.C15_compose.
+     Proofs.C15_inv Proofs.C15_term Proofs.C15_array Proofs.C15_hist Proofs.C15_gen Proofs.C15_compose Proofs.C15_fail.
 Import ListNotations.
 Open Scope Z_scope.
 
@@ -271,6 +271,35 @@ Proof.
   split; [apply Hok|]. split; [apply Hok|]. vm_compute. repeat split; discriminate.
 Qed.
 Print Assumptions C15_cached_result_buffers_refuted.
+
+(* ---- failing workers (the engine raises while a worker processes the slice it received; the worker counts the error and
+   returns without having written anything).  [frun] runs turns (worker, fails); its second component lists the slices
+   dropped.  Under every interleaving and every pattern of failures the slice of a failed worker has been handed out and is
+   never written by anybody; the other guarantees (tiling of a prefix, writes only of handed-out slices) are unaffected *)
+Theorem C15_failed_worker_slice_never_written : forall c fsched, wf c ->
+  let sf := fst (frun c fsched) in
+  (exists e, 0 <= e <= n c /\ ztiles 0 (slices sf) e) /\
+  (forall a b, In (a, b) (wdone sf) -> In (a, b) (slices sf)) /\
+  forall a b, In (a, b) (snd (frun c fsched)) -> In (a, b) (slices sf) /\ ~ In (a, b) (wdone sf).
+Proof. exact failed_slice_never_written. Qed.
+Print Assumptions C15_failed_worker_slice_never_written.
+(* so the rows of a failed worker's slice still hold the initial value of the result array (0 in _spatial_mp): the arrays are
+   the single-process result only when no worker failed - _run_jobs must raise whenever the error count is not 0 *)
+Theorem C15_failed_rows_keep_initial_value : forall (V : Type) (f : Z -> V) (d : V) c fsched, wf c ->
+  let sf := fst (frun c fsched) in
+  ztiles 0 (slices sf) (n c) ->
+  forall a b, In (a, b) (snd (frun c fsched)) ->
+  forall i, a <= i < b -> nth (Z.to_nat i) (result_array f d (n c) (wdone sf)) d = d.
+Proof. intros V. exact (@failed_rows_keep_initial V). Qed.
+Print Assumptions C15_failed_rows_keep_initial_value.
+Example C15_partial_failure_ex :
+  let c := mk_cfg 4 2 (Some 2) Dynamic 64 in
+  let fsched := repeat (0%nat, false) 6 ++ [(0%nat, true)] ++ repeat (1%nat, false) 20 ++ repeat (0%nat, false) 3 in
+  let sf := fst (frun c fsched) in
+  snd (frun c fsched) = [(0, 2)] /\ slices sf = [(0, 2); (2, 4)] /\ wdone sf = [(2, 4)] /\
+  pcs sf 0%nat = PDone /\ pcs sf 1%nat = PDone /\
+  result_array (fun i => 10 * i + 5) 0 4 (wdone sf) = [0; 0; 25; 35] /\ single_process (fun i => 10 * i + 5) 4 = [5; 15; 25; 35].
+Proof. vm_compute. repeat split; reflexivity. Qed.
 
 (* ---- layout independence: the array arguments are flattened in C (logical index) order, scheduled as flat rows and the
    flat result is reshaped in C order; then element (r, c0) of the multi-process result is g of the input VALUES at (r, c0),
